@@ -177,10 +177,10 @@ func (x *nsExec) pos(n *nsNode) nsPos {
 		sh, sr = x.c.H0, 0
 	}
 	sm := nsHR{sh, sr}
-	// After a restart the machine enters h+1 when the finalization of its
-	// stored height exists, without writing the store until its next advance.
-	if n.incarnation > 0 && sm == x.restartSM[n.idx] && x.restartBump[n.idx] {
-		sm = nsHR{sh + 1, 0}
+	// After a restart the machine enters the first height without a stored
+	// finalization, without writing the store until its next advance.
+	if n.incarnation > 0 && sm.less(x.restartSM[n.idx]) {
+		sm = x.restartSM[n.idx]
 	}
 	n.mu.Lock()
 	e := nsHR{n.enterH, n.enterR}
@@ -192,14 +192,19 @@ func (x *nsExec) pos(n *nsNode) nsPos {
 	return p
 }
 
-// restartEntry computes the height/round a restarted state machine would enter.
+// restartEntry computes the height/round a restarted state machine would enter:
+// the stored height/round (initial height, round 0 when never written), moved past
+// every height whose finalization is already stored.
 func (x *nsExec) restartEntry(n *nsNode) nsHR {
 	sh, sr, err := n.sms.StateMachineHeightRound(x.ctx)
 	if err != nil {
-		return nsHR{x.c.H0, 0}
+		sh, sr = x.c.H0, 0
 	}
-	if _, _, _, _, err := n.fs.LoadFinalizationByHeight(x.ctx, sh); err == nil {
-		return nsHR{sh + 1, 0}
+	for {
+		if _, _, _, _, err := n.fs.LoadFinalizationByHeight(x.ctx, sh); err != nil {
+			break
+		}
+		sh, sr = sh+1, 0
 	}
 	return nsHR{sh, sr}
 }
